@@ -48,6 +48,7 @@ def oracle_roundtrip(conf, recs):
     if natoms != n or len(atoms) != n:
         bad.append("number of records %d/%d instead of %d" % (natoms, len(atoms), n))
     raw_lines = text.split("\n")[2:2 + n]
+    d = gc.effective_d(conf)
     for i, (rec, a) in enumerate(zip(recs, atoms)):
         if len(a) != len(rec):
             bad.append("record %d: %d fields instead of %d" % (i, len(a), len(rec)))
@@ -76,7 +77,8 @@ def oracle_roundtrip(conf, recs):
             if k - 4 >= len(written):
                 bad.append("record %d: field %d is not written as a fixed-point number" % (i, k))
                 continue
-            dd = len(written[k - 4])
+            # positions: the decimals of the position format that was asked for; velocities: those written
+            dd = d if k < 7 else len(written[k - 4])
             tol = Decimal(5).scaleb(-dd - 1) + abs(Decimal(rec[k])) * Decimal(2) ** -51
             if abs(Decimal(float(a[k])) - Decimal(rec[k])) > tol:
                 bad.append("record %d field %d: %r read as %r (more than half a unit of decimal %d)"
@@ -109,6 +111,63 @@ def in_domain(conf, recs):
     return True
 
 
+MAX_REPORTS = 25
+
+
+def sequence_fails(cases):
+    """run the round trips in order (one process); failed clauses of the first case that fails"""
+    for conf, recs in cases:
+        bad = oracle_roundtrip(conf, recs)
+        if bad:
+            return bad
+    return []
+
+
+def fails_in_fresh_process(cases):
+    """does the sequence violate the property when it is all a fresh interpreter does?"""
+    import json
+    import subprocess
+    code = ("import sys, json; sys.path.insert(0, %r); import lib; lib.setup_impl_path(); import c13, gro_common as gc; "
+            "cases = [gc.case_from_json(o) for o in json.load(sys.stdin)]; "
+            "print('FAILS' if c13.sequence_fails(cases) else 'HOLDS')" % os.path.dirname(os.path.abspath(__file__)))
+    try:
+        p = subprocess.run([lib.PY, "-c", code], input=json.dumps([gc.case_json(c, r) for c, r in cases]),
+                           stdout=subprocess.PIPE, stderr=subprocess.STDOUT, universal_newlines=True, timeout=120,
+                           env=dict(os.environ, **lib.impl_env()))
+    except subprocess.TimeoutExpired:
+        return False
+    return "FAILS" in p.stdout
+
+
+def report(ctx, bad, conf, recs, extra=None):
+    """record a violation with a replay that reproduces in a fresh process: the failing run alone, or preceded by
+    earlier runs of this process (first run with each position format / velocities flag) when the failure
+    depends on the process history"""
+    ctx.cov["S"]["violating_cases"] = ctx.cov["S"].get("violating_cases", 0) + 1
+    if ctx.cov["S"]["violating_cases"] > MAX_REPORTS:
+        return
+    this = (conf, recs)
+    earlier = [(c, r) for key, c, r in gc.WRITER_HISTORY
+               if not (c is conf) and key != (gc.effective_w(conf), gc.effective_d(conf), len(recs[0]))]
+    same_flag = [(c, r) for c, r in earlier if len(r[0]) == len(recs[0])]
+    candidates = [[this]] + [[e, this] for e in same_flag[:4]] + [[e, this] for e in earlier[:4] if e not in same_flag]
+    if earlier:
+        candidates.append(earlier + [this])
+    chosen, reproduced = candidates[-1], False
+    for cand in candidates:
+        if fails_in_fresh_process(cand):
+            chosen, reproduced = cand, True
+            break
+    rep = {"kind": "sequence", "cases": [gc.case_json(c, r) for c, r in chosen],
+           "reproduces_in_fresh_process": reproduced}
+    if extra:
+        rep.update({k: v for k, v in extra.items() if k not in ("case", "kind")})
+    what = "gro round trip: " + "; ".join(bad)
+    if len(chosen) > 1:
+        what = ("after %d earlier write(s) with another position format in the same process: " % (len(chosen) - 1)) + what
+    ctx.violation(what, rep, key="roundtrip")
+
+
 CORPUS = [
     # D4: five-digit wrap (99999 was written as 0, 100000 as 2)
     ({"title": "wrap", "natoms": None, "fmt": None, "box": ("vec", [1.0, 2.0, 3.0])},
@@ -129,8 +188,7 @@ def corpus(ctx):
         bad = oracle_roundtrip(conf, recs)
         S["corpus"] += 1
         if bad:
-            ctx.violation("gro round trip: " + "; ".join(bad), {"kind": "roundtrip", "case": gc.case_json(conf, recs)},
-                          key="roundtrip")
+            report(ctx, bad, conf, recs)
 
 
 # ------------------------------------------------------------------ K
@@ -208,7 +266,7 @@ def correspondence(ctx):
         if kind != "bad" and in_domain(conf, recs):
             bad = oracle_roundtrip(conf, recs)
             if bad:
-                ctx.violation("gro round trip: " + "; ".join(bad), m, key="roundtrip")
+                report(ctx, bad, conf, recs)
     K = ctx.cov["K"]
     K["input_distribution"] = hist
     dis = []
@@ -230,7 +288,7 @@ def correspondence(ctx):
         if in_domain(conf, recs):
             bad = oracle_roundtrip(conf, recs)
             if bad:
-                ctx.violation("gro round trip: " + "; ".join(bad), dcase, key="roundtrip")
+                report(ctx, bad, conf, recs, extra=dcase)
     return dis
 
 
@@ -250,8 +308,7 @@ def oracle(ctx, scale):
         bad = oracle_roundtrip(conf, recs)
         if bad:
             fails += 1
-            ctx.violation("gro round trip: " + "; ".join(bad), {"kind": "roundtrip", "case": gc.case_json(conf, recs)},
-                          key="roundtrip")
+            report(ctx, bad, conf, recs)
     S["roundtrips_x%d" % scale] = n
     S["failures"] = S.get("failures", 0) + fails
     S["atoms_histogram"] = {str(k): v for k, v in sorted(sizes.items())}
@@ -259,11 +316,13 @@ def oracle(ctx, scale):
 
 def replay(ctx, obj):
     r = obj["replay"]
-    if r.get("kind") != "roundtrip":
+    if r.get("kind") == "sequence":
+        bad = sequence_fails([gc.case_from_json(o) for o in r["cases"]])
+    elif r.get("kind") == "roundtrip":
+        bad = oracle_roundtrip(*gc.case_from_json(r["case"]))
+    else:
         print("replay names a proof/correspondence, not an input:", str(r)[:300])
         return False
-    conf, recs = gc.case_from_json(r["case"])
-    bad = oracle_roundtrip(conf, recs)
     print(bad)
     return not bad
 
